@@ -197,6 +197,8 @@ func Build(d Desc) (*Node, error) {
 			n = &Node{Kind: "map", Name: s, RT: reflect.MapOf(scalarTypes["string"], n.RT), Elem: n}
 		case s == "map_i":
 			n = &Node{Kind: "map", Name: s, RT: reflect.MapOf(scalarTypes["int"], n.RT), Elem: n}
+		case s == "map_p":
+			n = &Node{Kind: "map", Name: s, RT: reflect.MapOf(reflect.PtrTo(scalarTypes["int"]), n.RT), Elem: n}
 		case s == "map_t":
 			n = &Node{Kind: "map", Name: s, RT: reflect.MapOf(reflect.TypeOf(TextKey{}), n.RT), Elem: n}
 		case s == "iface":
@@ -396,6 +398,11 @@ func (g *gen) value(n *Node, depth int) reflect.Value {
 				kv.SetString(keys[i])
 			case reflect.Int:
 				kv.SetInt([]int64{10, -2, 3}[i])
+			case reflect.Ptr:
+				if i > 0 { // the first key stays nil
+					x := []int{0, -2, 3}[i]
+					kv.Set(reflect.ValueOf(&x))
+				}
 			default:
 				kv.Field(0).SetString(keys[i])
 			}
